@@ -284,23 +284,25 @@ def check_affinity_value_is_gindex(ctx, rule):
     n_ = 0
     for name, has_cpu_before in (("thread_set_cpu", False), ("thread_migrate_cpu", True)):
         fn = prog.fn(name, TH)
-        sets = []
-
-        def s_cs(ex_, st, a, f, e):
-            sets.append((a[0], a[1]))
-            return [(INT(0), {})]
-        ex = absint.Explorer(prog, effects=eff, inline=lambda n, d: n == "cpu_get_phyid",
-                             summaries={"chan_set": s_cs, "value_int64": lambda ex_, st, a, f, e: [(("val", "i64", a[0]), {})],
-                                        "value_null": lambda ex_, st, a, f, e: [(VNULL, {})]})
-        store = {DBG: INT(0), ("TH", F("thread", "cpu")): PTR("OLD") if has_cpu_before else NULL,
-                 ("TH", F("thread", "tid")): INT(7), ("TH", F("thread", "gindex")): INT(0),
-                 ("CPU", F("cpu", "gindex")): INT(3), ("CPU", F("cpu", "phyid")): INT(9), ("CPU", F("cpu", "index")): INT(5)}
-        outs = [o for o in ex.run(fn, [PTR("TH"), PTR("CPU")], store) if o.kind == "ret" and o.ret == INT(0)]
-        n_ += 1
-        want = [(PTR("TH", F("thread", "chan") + (CPUCH,)), VI(3))]
-        ctx.check(bool(outs) and set(sets) == set(want), rule, "%s:publishes-gindex" % name, fn.loc(),
-                  "%s on a CPU with global index 3, logical index 5 and physical id 9 writes %s; the affinity channel must "
-                  "receive the global index 3 (the value labelled in the .pcf is gindex + 1)" % (name, [(str(a), str(b)) for a, b in sets]))
+        for active in (1, 0):
+            ex = absint.Explorer(prog, effects=eff, inline=lambda n, d: n == "cpu_get_phyid",
+                                 summaries={"chan_set": lambda ex_, st, a, f, e: [(INT(0), {})],
+                                            "value_int64": lambda ex_, st, a, f, e: [(("val", "i64", a[0]), {})],
+                                            "value_null": lambda ex_, st, a, f, e: [(VNULL, {})]})
+            store = {DBG: INT(0), ("TH", F("thread", "cpu")): PTR("OLD") if has_cpu_before else NULL,
+                     ("TH", F("thread", "tid")): INT(7), ("TH", F("thread", "gindex")): INT(0),
+                     ("TH", F("thread", "is_active")): INT(active), ("TH", F("thread", "is_running")): INT(active),
+                     ("CPU", F("cpu", "gindex")): INT(3), ("CPU", F("cpu", "phyid")): INT(9), ("CPU", F("cpu", "index")): INT(5)}
+            outs = [o for o in ex.run(fn, [PTR("TH"), PTR("CPU")], store) if o.kind == "ret" and o.ret == INT(0)]
+            n_ += 1
+            want = (PTR("TH", F("thread", "chan") + (CPUCH,)), VI(3))
+            per_path = [[tuple(ev[2][:2]) for ev in o.events if ev[0] == "call" and ev[1] == "chan_set"] for o in outs]
+            ctx.check(bool(outs) and all(pp == [want] for pp in per_path), rule,
+                      "%s:publishes-gindex%s" % (name, "" if active else ":thread-not-active"), fn.loc(),
+                      "%s (thread %s) on a CPU with global index 3, logical index 5 and physical id 9 writes %s on its "
+                      "accepting paths; the affinity channel must receive the global index 3 on every one of them (the value "
+                      "labelled in the .pcf is gindex + 1; a paused thread that is moved must show its new CPU too)" %
+                      (name, "active" if active else "paused", [[(str(a), str(b)) for a, b in pp] for pp in per_path]))
     lab = prog.fn("cpu_add_to_pcf_type", "src/emu/cpu.c")
     got = []
 
@@ -311,7 +313,7 @@ def check_affinity_value_is_gindex(ctx, rule):
     ex.run(lab, [PTR("CPU"), PTR("TYPE")], {("CPU", F("cpu", "gindex")): INT(3), ("CPU", F("cpu", "phyid")): INT(9)})
     ctx.check(got == [INT(4)], rule, "cpu_add_to_pcf_type:label-key-is-gindex+1", lab.loc(),
               "the affinity label of the CPU with global index 3 is keyed %s, expected 4" % [str(x) for x in got])
-    ctx.need(n_ == 2, "affinity: %d functions" % n_)
+    ctx.need(n_ == 4, "affinity: %d cases" % n_)
 
 
 def check_version_decimal(ctx, rule):
